@@ -40,7 +40,9 @@ F3 == <<CF(1, "f1", "V50"), CF(2, "g1", "V50"),
         CS(8, "ELEMENTS"), CN(10, "SYSTEM-SIGNAL", "s"), CS(4, "ELEMENTS"), CN(13, "SYSTEM-SIGNAL", "t"),
         \* 16 SYSTEM-SIGNAL s1 (in c, next to s: one name is a prefix of the other), 17 SN
         CN(10, "SYSTEM-SIGNAL", "s1"),
-        CF(1, "f2", "V50"), AF(3, 3), RF(4, 3)>>
+        \* 18 AR-PACKAGES (in b), 19 AR-PACKAGE n, 20 SN: a nested package with a file set of its own (f1 only, see the last action)
+        CS(6, "AR-PACKAGES"), CN(18, "AR-PACKAGE", "n"),
+        CF(1, "f2", "V50"), AF(3, 3), RF(4, 3), RF(19, 3)>>
 SA(p, an, v) == [A0 EXCEPT !.op = "SetAttr", !.p = p, !.an = an, !.val = v]
 SC(p, c) == [A0 EXCEPT !.op = "SetComment", !.p = p, !.name = c]
 \* F4: copy across versions: model 1 is V50, model 2 is V401
